@@ -39,6 +39,7 @@ an empty mark set, never a marker directly inside a marker) and `TypeFnWF` (the
 distinct).  They appear exactly where needed.
 -/
 import CtyModel.Lemmas.FnCall2
+import CtyModel.Lemmas.FnCallTie
 namespace CtyModel
 namespace C10
 open Fn
@@ -571,6 +572,142 @@ theorem call_unmarked_exact (spec : Spec) (tf : TypeFn) (impl : ImplFn) (args : 
     e1, e2]
   simp [withUnhandled, e3]
 
+/-! ### The regenerated model
+
+`extract/translate_fn.go` translates the bodies of `Function.returnTypeForValues`,
+`Function.ReturnTypeForValues`, `Function.ReturnType` and `Function.Call` from
+cty/function/function.go into Lean on every check (`Generated/FnCall.lean`, statement by
+statement; the given API — `cty.Value` methods, `TestConformance`, `RefineWith`, the error
+constructors, the two `recover` wrappers — is `CtyModel/FnGo.lean`).  The three `generated_*_eq`
+theorems say that what the source text computes is what the hand-written model computes:
+the same outcome AND the same trace of callback invocations, for all specs, callbacks and
+argument lists (in particular no slice operation of the Go text panics and the code wrapped by
+the deferred `RefineResult` closure cannot panic).  So every theorem above holds of the
+translated source; the `*_generated` corollaries state the main clauses directly about it.  A
+source edit that changes the meaning makes these proofs fail; an edit that leaves the
+translated fragment makes the extractor fail.
+
+`argsNil` is Go's "the slice `args` is nil" (the source compares a sub-slice of it with `nil`);
+`GoSlice` is the representation invariant that a nil slice is empty. -/
+
+/-- a nil slice has no elements -/
+def GoSlice (args : List Value) (argsNil : Bool) : Prop := argsNil = true → args = []
+
+/-- `Function.Call` as written in the source is the model's `call` (outcome and trace) -/
+theorem generated_call_eq (spec : Spec) (tf : TypeFn) (impl : ImplFn) (args : List Value) (argsNil : Bool)
+    (hs : GoSlice args argsNil) :
+    Generated.FnCall.call spec tf impl args argsNil = call spec tf impl args :=
+  FnCallTie.call_eq' spec tf impl args argsNil hs
+
+/-- `Function.ReturnTypeForValues` as written in the source is the model's `returnTypeForValuesPub` -/
+theorem generated_returnTypeForValues_eq (spec : Spec) (tf : TypeFn) (args : List Value) (argsNil : Bool)
+    (hs : GoSlice args argsNil) :
+    Generated.FnCall.returnTypeForValuesPub spec tf args argsNil = returnTypeForValuesPub spec tf args :=
+  FnCallTie.returnTypeForValuesPub_eq spec tf args argsNil hs
+
+/-- `Function.ReturnType` as written in the source is the model's `returnType` -/
+theorem generated_returnType_eq (spec : Spec) (tf : TypeFn) (tys : List Ty) :
+    Generated.FnCall.returnType spec tf tys = returnType spec tf tys :=
+  FnCallTie.returnType_eq' spec tf tys
+
+/-- clause 1, about the translated source -/
+theorem impl_only_after_type_generated (spec : Spec) (tf : TypeFn) (impl : ImplFn) (args as : List Value) (rt : Ty)
+    (argsNil : Bool) (hs : GoSlice args argsNil)
+    (h : Event.impl as rt ∈ (Generated.FnCall.call spec tf impl args argsNil).2) :
+    tf (typeArgs spec args) = .ok rt ∧
+    (∃ tail, (Generated.FnCall.call spec tf impl args argsNil).2 = .type (typeArgs spec args) :: .impl as rt :: tail ∧
+      (tail = [] ∨ ∃ v, tail = [.refine v])) ∧
+    as.map Value.unmarkDeep = args.map Value.unmarkDeep ∧
+    (ArgsWF args → as = typeArgs spec args) := by
+  rw [generated_call_eq spec tf impl args argsNil hs] at h ⊢
+  obtain ⟨h1, h2, _, h4, h5⟩ := impl_only_after_type spec tf impl args as rt h
+  exact ⟨h1, h2, h4, h5⟩
+
+/-- clause 2, about the translated source: the arguments `Impl` is handed satisfy every declared contract -/
+theorem impl_args_satisfy_contract_generated (spec : Spec) (tf : TypeFn) (impl : ImplFn) (args as : List Value)
+    (rt : Ty) (argsNil : Bool) (hs : GoSlice args argsNil) (hw : ArgsWF args)
+    (h : Event.impl as rt ∈ (Generated.FnCall.call spec tf impl args argsNil).2) :
+    as.length = args.length ∧
+    ∀ i a, as[i]? = some a → ∃ p, spec.paramFor i = some p ∧
+      (a.ty.isDyn = false → Ty.conformErrs p.ty a.ty = 0) ∧
+      (a.isNull = true → p.allowNull = true) ∧
+      (a.isKnown = false → p.allowUnknown = true) ∧
+      (a.ty.isDyn = true → p.allowDynamic = true) ∧
+      (p.allowMarked = false → a.containsMarked = false ∧ a.marksDeep = []) := by
+  rw [generated_call_eq spec tf impl args argsNil hs] at h
+  exact impl_args_satisfy_contract spec tf impl args as rt hw h
+
+/-- clauses 3–7, about the translated source: the outcome falls into exactly the row of the decision
+table `CallCase` that the inputs select, then the declared refinement is applied -/
+theorem outcome_classification_generated (spec : Spec) (tf : TypeFn) (impl : ImplFn) (args : List Value)
+    (argsNil : Bool) (hs : GoSlice args argsNil) :
+    ∃ k o, CallCase spec tf impl args k o ∧
+      Generated.FnCall.call { spec with refine := none } tf impl args argsNil = o ∧
+      Generated.FnCall.call spec tf impl args argsNil = finish spec o := by
+  obtain ⟨k, o, hk, ho, hc⟩ := outcome_classification spec tf impl args
+  refine ⟨k, o, hk, ?_, ?_⟩
+  · rw [generated_call_eq _ tf impl args argsNil hs]; exact ho
+  · rw [generated_call_eq spec tf impl args argsNil hs]; exact hc
+
+/-- clause 3, about the translated source: an `ArgError` names the first offender, by absolute index -/
+theorem arg_error_names_first_offender_generated (spec : Spec) (tf : TypeFn) (impl : ImplFn) (args : List Value)
+    (k : Nat) (argsNil : Bool) (hs : GoSlice args argsNil) :
+    (Generated.FnCall.call spec tf impl args argsNil).1 = .err (.arg k) ↔
+      spec.countOK args.length = true ∧ ∃ f, f ≠ .dynamic ∧ FirstFailAt spec args k f := by
+  rw [generated_call_eq spec tf impl args argsNil hs]
+  exact arg_error_names_first_offender spec tf impl args k
+
+/-- clause 5, about the translated source: callback panics come back as `PanicError`s -/
+theorem panics_become_errors_generated (spec : Spec) (tf : TypeFn) (impl : ImplFn) (args : List Value)
+    (argsNil : Bool) (hs : GoSlice args argsNil) :
+    (∀ as w, Event.type as ∈ (Generated.FnCall.call spec tf impl args argsNil).2 → tf as = .panic w →
+      (Generated.FnCall.call spec tf impl args argsNil).1 = .err (.panicError w)) ∧
+    (∀ as rt w, Event.impl as rt ∈ (Generated.FnCall.call spec tf impl args argsNil).2 → impl as rt = .panic w →
+      (Generated.FnCall.call spec tf impl args argsNil).1 = .err (.panicError w)) := by
+  rw [generated_call_eq spec tf impl args argsNil hs]
+  exact panics_become_errors spec tf impl args
+
+/-- … and `ReturnTypeForValues` as written never lets a Go panic escape -/
+theorem rtfv_panics_become_errors_generated (spec : Spec) (tf : TypeFn) (args : List Value)
+    (argsNil : Bool) (hs : GoSlice args argsNil) :
+    (∀ why, (Generated.FnCall.returnTypeForValuesPub spec tf args argsNil).1 ≠ .panic why) ∧
+    (∀ w, Event.type (typeArgs spec args) ∈ (Generated.FnCall.returnTypeForValuesPub spec tf args argsNil).2 →
+      tf (typeArgs spec args) = .panic w →
+      (Generated.FnCall.returnTypeForValuesPub spec tf args argsNil).1 = .err (.panicError w)) := by
+  rw [generated_returnTypeForValues_eq spec tf args argsNil hs]
+  exact ⟨(rtfv_panics_become_errors spec tf args).1, (rtfv_panics_become_errors spec tf args).2.2⟩
+
+/-- clause 7, about the translated source: a returned value conforms to the type
+`ReturnTypeForValues` (as written) answers for the same arguments -/
+theorem nonconforming_never_returned_generated (spec : Spec) (tf : TypeFn) (impl : ImplFn) (args : List Value)
+    (argsNil : Bool) (hs : GoSlice args argsNil) (hT : TypeFnWF tf) (v : Value)
+    (h : (Generated.FnCall.call spec tf impl args argsNil).1 = .ok v) :
+    ∃ t, (Generated.FnCall.returnTypeForValuesPub spec tf args argsNil).1 = .ok t ∧ Ty.conformErrs t v.ty = 0 := by
+  rw [generated_call_eq spec tf impl args argsNil hs] at h
+  rw [generated_returnTypeForValues_eq spec tf args argsNil hs]
+  exact nonconforming_never_returned spec tf impl args hT v h
+
+/-- clause 6, about the translated source: with `RefineResult` declared, every typed result the call
+yields before the deferred refinement is handed to the builder, last, and `Call` returns what the
+builder makes of it -/
+theorem refinement_applied_generated (spec : Spec) (tf : TypeFn) (impl : ImplFn) (args : List Value)
+    (argsNil : Bool) (hs : GoSlice args argsNil) (rf : RefineFn) (pre : Value) (hr : spec.refine = some rf)
+    (hp : (Generated.FnCall.call { spec with refine := none } tf impl args argsNil).1 = .ok pre)
+    (ht : typed pre = true) :
+    Generated.FnCall.call spec tf impl args argsNil =
+      (refineWith rf pre,
+        (Generated.FnCall.call { spec with refine := none } tf impl args argsNil).2 ++ [.refine pre.unmark]) := by
+  rw [generated_call_eq { spec with refine := none } tf impl args argsNil hs] at hp ⊢
+  rw [generated_call_eq spec tf impl args argsNil hs]
+  exact ((refinement_applied spec tf impl args).1 rf pre hr hp ht).1
+
+/-- no Go panic escapes `Call` as written, under the function author's documented obligation -/
+theorem no_go_panic_generated (spec : Spec) (tf : TypeFn) (impl : ImplFn) (args : List Value)
+    (argsNil : Bool) (hs : GoSlice args argsNil) (hv : RefinerValid spec tf impl args) (why : String) :
+    (Generated.FnCall.call spec tf impl args argsNil).1 ≠ .panic why := by
+  rw [generated_call_eq spec tf impl args argsNil hs]
+  exact no_go_panic spec tf impl args hv why
+
 /-! ### Non-vacuity: concrete, non-trivial instances of the hypotheses used above -/
 
 /-- one positional `string` parameter allowing marks, and a variadic `list(dynamic)` parameter
@@ -615,6 +752,10 @@ example : (match (callUnrefined sampleSpec sampleTf sampleImpl
     | .ok u => !u.isKnown && u.marks == ["z"]
     | _ => false) = true := by decide
 example : (call panicSpec panicTf panicImpl []).1.isPanic = true := by decide
+/-- the translated source, evaluated: the same three callback invocations on the sample; a nil `args` is fine -/
+example : GoSlice sampleArgs false ∧ GoSlice [] true := ⟨(by intro h; cases h), fun _ => rfl⟩
+example : (Generated.FnCall.call sampleSpec sampleTf sampleImpl sampleArgs false).2.length = 3 := by decide
+example : (Generated.FnCall.call panicSpec panicTf panicImpl [] true).1.isPanic = true := by decide
 
 end C10
 end CtyModel
